@@ -384,6 +384,16 @@ class DocGen:
                     if self.s.is_composite(named(fd.type)):
                         f.sels = [Field("__typename")]
                 op.sels = [f]
+                if t.chance(k["repeat_pct"]):
+                    # the single root field selected again, identically (one response key: still one root field)
+                    import copy as _copy
+                    twin = _copy.deepcopy(f)
+                    form = t.choose(["direct", "inline", "inline_cond"])
+                    if form == "direct":
+                        op.sels.append(twin)
+                    else:
+                        op.sels.append(Inline(root if form == "inline_cond" else None, None, [twin]))
+                    self.probe("subscription_root_repeated")
             else:
                 op.sels = self.gen_selset(root, scope, 1)
                 if kind == "query" and t.chance(k["introspection_pct"]):
